@@ -195,10 +195,10 @@ def check_green(desc):
 CHECKS = {"green": check_green}
 
 
-def shards(tier):
+def shards(tier, seed=1):
     if tier == "quick":
-        return [{"check": "green", "examples": 5, "budget_s": 200, "cls": "regular" if i % 2 else "hard", "rep": i} for i in range(10)]
-    return [{"check": "green", "examples": 40, "budget_s": 1800, "cls": "regular" if i % 2 else "hard", "rep": i, "deep": True} for i in range(16)]
+        return [{"check": "green", "examples": 8, "budget_s": 240, "cls": "regular" if i % 2 else "hard", "rep": i} for i in range(4)]
+    return [{"check": "green", "examples": 80, "budget_s": 2400, "cls": "regular" if i % 2 else "hard", "rep": i, "deep": True} for i in range(6)]
 
 
 def strategy(spec):
